@@ -442,13 +442,14 @@ Theorem c11_prop_version_never_read : forall c, pv_never_read_ok c = true ->
 Proof. exact never_read_stable. Qed.
 (** The caller names the format [m]: it is the format written, under its own header number; a fresh reader settles on a format
     [d] with the header number and the record size of [m], records what it decodes with and - if [d] is [m] - runs the writer's
-    ladder; named to the reader, [m] is believed.  (Two members may share the pair: the file cannot say which it holds.) *)
+    ladder; named to the reader, [m] is believed, also by the reader of an empty lump.  (Two members may share the pair: the file
+    cannot say which it holds.) *)
 Theorem c11_prop_version_named : forall c, pv_named_ok c = true ->
   forall bv m, In bv (c_bsp c) -> (1 <= m <= N.of_nat (List.length (c_members c)))%N ->
   exists lw h sz d ld,
     hdr_of c m = Some h /\ size_of c m = Some sz /\ write_props c m h = Some (Some (m, m, lw, h)) /\
     read_sized c bv h sz 0%N = Some (Some (d, d, ld)) /\ (d = m -> ld = lw) /\ hdr_of c d = Some h /\ size_of c d = Some sz /\
-    read_sized c bv h sz m = Some (Some (m, m, lw)).
+    read_sized c bv h sz m = Some (Some (m, m, lw)) /\ read_empty c bv h m = Some (Some m).
 Proof. exact named_detected. Qed.
 (** When no other member has the (header number, record size) of [m], the fresh reader finds [m] itself. *)
 Theorem c11_prop_version_detected : forall c, pv_named_ok c = true ->
